@@ -1,6 +1,7 @@
 //! Correspondence harness: runs the real rust-debruijn code (path dependency on /repo's working tree)
 //! on generated cases and writes `op input result` lines for the extracted Coq model to check.
 //! usage: dbg-harness <property> <seed> <quick|thorough> <shard> <nshards> <outfile>
+mod c01;
 mod c11;
 mod c12;
 mod gen;
@@ -39,6 +40,8 @@ fn main() {
         if cfg!(debug_assertions) { "debug" } else { "release" }
     ));
     match prop {
+        "C01" => c01::run(&mut out, &mut rng, &tier, "C01"),
+        "C02" => c01::run(&mut out, &mut rng, &tier, "C02"),
         "C10" => kmers::c10(&mut out, &mut rng, &tier),
         "C11" => c11::c11(&mut out, &mut rng, &tier),
         "C12" => c12::c12(&mut out, &mut rng, &tier),
